@@ -614,3 +614,15 @@ def ensure_replay():
     r = subprocess.run([VERIF + '/tools/build_replay.sh'], capture_output=True, text=True)
     if r.returncode != 0:
         print(r.stdout[-3000:], r.stderr[-2000:]); raise SystemExit(2)
+
+
+def renamed(task, frm, to):
+    """the same obligations under another property's id (a property's own check must see a defect in code it relies on, even if a neighbouring property decides that code)"""
+    def t(world):
+        obs = task(world)
+        for o in obs:
+            if o.oid.startswith(frm): o.oid = to + o.oid[len(frm):]
+            for c in o.cex:
+                if c.get('ob', '').startswith(frm): c['ob'] = to + c['ob'][len(frm):]
+        return obs
+    return t
